@@ -128,3 +128,62 @@ func (w *Worker) honestSignature(pk, msg []value) []value {
 	w.sigs = append(w.sigs, sigRec{pk: append([]value{}, pk...), msg: append([]value{}, msg...), sig: sig})
 	return sig
 }
+
+// Randomness: the HMAC-DRBG and math/rand are not interpreted. Every
+// Shuffle / Perm explores ALL permutations (n <= 4) as engine decisions, i.e.
+// results hold for every entropy value; determinism in the entropy is the
+// statement "same permutation => same result", which holds trivially for code
+// that is a function of the permutation.
+func init() {
+	moreRegs = append(moreRegs, func(eng *Engine) {
+		in := eng.intrinsics
+		in["github.com/oasisprotocol/oasis-core/go/common/crypto/drbg.New"] = func(w *Worker, fr *frame, f *ssa.Function, args []value) value {
+			t := deref(f.Signature.Results().At(0).Type())
+			cell := new(value)
+			*cell = zero(t)
+			return tuple{cell, iface{}}
+		}
+		in["github.com/oasisprotocol/oasis-core/go/common/crypto/mathrand.New"] = func(w *Worker, fr *frame, f *ssa.Function, args []value) value {
+			// a rand.Source64 that is never consulted (Shuffle / Perm are modelled)
+			p := w.eng.prog.ImportedPackage("github.com/oasisprotocol/oasis-core/go/common/crypto/mathrand")
+			t := p.Type("rngAdapter").Type()
+			cell := new(value)
+			*cell = zero(t)
+			return iface{t: types.NewPointer(t), v: cell}
+		}
+		perm := func(w *Worker, n int) []int {
+			if n > 4 {
+				unsupported("random permutation of %d elements (engine explores all permutations only up to 4)", n)
+			}
+			p := make([]int, n)
+			for i := range p {
+				p[i] = i
+			}
+			for i := n - 1; i > 0; i-- {
+				j := w.chooseFree(i+1, "rng permutation")
+				p[i], p[j] = p[j], p[i]
+			}
+			return p
+		}
+		in["(*math/rand.Rand).Perm"] = func(w *Worker, fr *frame, f *ssa.Function, args []value) value {
+			n := int(int64(args[1].(uint64)))
+			p := perm(w, n)
+			out := make([]value, n)
+			for i, x := range p {
+				out[i] = uint64(x)
+			}
+			return out
+		}
+		in["(*math/rand.Rand).Shuffle"] = func(w *Worker, fr *frame, f *ssa.Function, args []value) value {
+			n := int(int64(args[1].(uint64)))
+			if n > 4 {
+				unsupported("random shuffle of %d elements (limit 4)", n)
+			}
+			for i := n - 1; i > 0; i-- {
+				j := w.chooseFree(i+1, "rng shuffle")
+				w.call(fr, 0, args[2], []value{uint64(i), uint64(j)})
+			}
+			return nil
+		}
+	})
+}
